@@ -5,6 +5,11 @@ import glob, os, re
 from extract_tables import item, read, fn_body, lean_str, lean_char
 
 
+def lean_chars(s):
+    """explicit `List Char` literal (kernel-friendly: no String.toList to reduce)"""
+    return "[" + ", ".join(lean_char(c) for c in s) + "]"
+
+
 def _rust_unescape(s):
     out, i = [], 0
     while i < len(s):
@@ -43,7 +48,7 @@ def _tojson_replacements(repo):
     if "Value::from_safe_string(rv)" not in body:
         raise KeyError("tojson no longer returns the post-processed text as a safe string")
     lean = ("def tojsonReplacements : List (Char × List Char) := ["
-            + ", ".join(f"({lean_char(c)}, {lean_str(r)}.toList)" for c, r in tbl) + "]")
+            + ", ".join(f"({lean_char(c)}, {lean_chars(r)})" for c, r in tbl) + "]")
     return tbl, lean
 
 
@@ -63,9 +68,9 @@ def _jinja_separators(repo):
     overridden = re.findall(r"fn (\w+)<", body)
     if sorted(overridden) != sorted(out):
         raise KeyError(f"JinjaJsonFormatter overrides {overridden}")
-    lean = (f"def jinjaArraySep : List Char := {lean_str(out['begin_array_value'])}.toList\n"
-            f"def jinjaMemberSep : List Char := {lean_str(out['begin_object_key'])}.toList\n"
-            f"def jinjaKeySep : List Char := {lean_str(out['begin_object_value'])}.toList")
+    lean = (f"def jinjaArraySep : List Char := {lean_chars(out['begin_array_value'])}\n"
+            f"def jinjaMemberSep : List Char := {lean_chars(out['begin_object_key'])}\n"
+            f"def jinjaKeySep : List Char := {lean_chars(out['begin_object_value'])}")
     return out, lean
 
 
@@ -113,9 +118,10 @@ def _serde_json_escape(repo):
         return ord(_rust_unescape(lit[2:-1]))
     tbl = [val(n) for n in names]
     # the escape writer: \uXXXX with lower-case hex digits, other escapes are backslash + code
-    if 'b"0123456789abcdef"' not in src or "b'\\\\', b'u', b'0', b'0'" not in src.replace("\n", " ").replace("  ", " "):
-        if not re.search(r"static HEX_DIGITS: \[u8; 16\] = \*b\"0123456789abcdef\";", src):
-            raise KeyError("serde_json hex digits")
+    if not re.search(r"static HEX_DIGITS: \[u8; 16\] = \*b\"0123456789abcdef\";", src):
+        raise KeyError("serde_json hex digits")
+    if not re.search(r"b'\\\\',\s*b'u',\s*b'0',\s*b'0',\s*HEX_DIGITS\[\(byte >> 4\) as usize\],\s*HEX_DIGITS\[\(byte & 0xF\) as usize\]", src):
+        raise KeyError("serde_json \\u00XX writer")
     lean = (f"-- serde_json {ver}\n"
             "def jsonEscapeTable : List Nat := [" + ", ".join(map(str, tbl)) + "]")
     return {"version": ver, "table": tbl}, lean
